@@ -83,6 +83,9 @@ Fixpoint dict_get {V : Type} (k : string) (d : list (string * V)) : option V :=
   | (k', v') :: r => if String.eqb k k' then Some v' else dict_get k r
   end.
 
+(** d.items(): the (key, value) pairs in insertion order (a key assigned again keeps its first position) *)
+Definition dict_items {V : Type} (d : list (string * V)) : list (string * V) := d.
+
 Section CliBase.
   Context {F : Type} {OF : Ops F}.
   Local Open Scope ops_scope.
